@@ -5,6 +5,13 @@ V = os.path.dirname(os.path.dirname(os.path.abspath(__file__)))
 props = [json.loads(l) for l in open(os.path.join(V, "properties.jsonl"))]
 
 CLAIMS = {
+ "C08": dict(
+   text="SrcMapEquiv.tla is the source x bytecode product in which every op carries the source-map entry the real compiler recorded; TLC checks "
+        "at every Sync that the entry is the one the position tables prescribe (direct: statement / condition / switch / case header start; macro: "
+        "defining file relative to the compiled file, macro name, position, return address behind the op, call position on the first op of an "
+        "expansion), and statically: every op mapped, the layout scan of return addresses, included files = contributing files, position marks.",
+   ref="§3 C08", technique="TLC model checking of the source-semantics x bytecode product with per-step source-map agreement (MapAgrees) on real compile results",
+   note="bounded/sampled programs incl. multi-file macro trees; compiler-inserted jumps need only an entry; CaseText may map to case header or switch statement"),
  "C10": dict(
    text="StaticValidity.tla defines Valid(program) as exactly the listed classes over the node table and import graph, and compile() as a "
         "machine with one action per documented outcome. TLC validates every recorded compile outcome: injected violations of every class in "
